@@ -8,7 +8,7 @@ import z3
 
 from . import smt
 from .smt import IS, VS, Val
-from .values import VInt, VBool, VSeq, VNone, VTuple, VList, VRef, VAny, VRecord
+from .values import VInt, VBool, VSeq, VNone, VTuple, VList, VRef, VAny, VRecord, VOpt
 
 _AXIOMS = None
 
@@ -84,11 +84,7 @@ def discharge(eng, inst, timeout_ms=20000, fuel=1, second_backend=None, params=N
     verdict = classify(res, reason)
     out = {"verdict": verdict, "backend": "z3-5.1(py)", "seconds": round(dt, 4), "reason": reason, "tried": ["z3-5.1(py)"]}
     if verdict in ("refuted", "notproved") and params is not None:
-        try:
-            out["model"] = extract_model(sv.model(), params)
-        except Exception as ex:  # candidate model unavailable
-            out["model"] = None
-            out["model_error"] = repr(ex)
+        out["model"] = candidate_model(eng, inst, fuel, params, sv if verdict == "refuted" else None, out)
     need_other = verdict == "timeout" or verdict.startswith("unknown")
     if need_other or (second_backend and verdict == "proved"):
         txt = "(set-option :auto_config false)\n(set-option :smt.mbqi false)\n" + sv.to_smt2()
@@ -120,12 +116,23 @@ def discharge(eng, inst, timeout_ms=20000, fuel=1, second_backend=None, params=N
                     out["verdict"] = v2
                     out["reason"] = sv2.reason_unknown() if res2 == z3.unknown else ""
                     if params is not None:
-                        try:
-                            out["model"] = extract_model(sv2.model(), params)
-                        except Exception:
-                            out["model"] = None
+                        out["model"] = candidate_model(eng, inst, fuel, params, sv2 if v2 == "refuted" else None, out)
                     break
     return out
+
+
+def candidate_model(eng, inst, fuel, params, sat_solver, out):
+    """The solver's candidate counter-model (z3 keeps one only with candidate_models=true, which in turn
+    hides the reason for `unknown`, hence the separate run)."""
+    try:
+        if sat_solver is None:
+            sat_solver = build_solver(eng, inst.hyps, inst.goal, 3000, fuel)
+            sat_solver.set("candidate_models", True)
+            sat_solver.check()
+        return extract_model(sat_solver.model(), params)
+    except Exception as ex:
+        out["model_error"] = repr(ex)
+        return None
 
 
 def cvc5_text(sv):
@@ -154,7 +161,7 @@ def _ival(m, t):
         return 0
 
 
-def _iseq(m, t, cap=4200):
+def _iseq(m, t, cap=48):
     n = max(0, min(_ival(m, IS.len(t)), cap))
     return [_ival(m, IS.at(t, z3.IntVal(i))) for i in range(n)]
 
@@ -176,7 +183,12 @@ def concretize(m, v, heap=None):
     if isinstance(v, VTuple):
         return {"tuple": [concretize(m, x, heap) for x in v.items]}
     if isinstance(v, VRecord):
-        return {"record": v.cls, "fields": {k: concretize(m, x, heap) for k, x in v.fields.items()}}
+        from .values import RECORDS
+        return {"record": v.cls, "module": RECORDS[v.cls][1], "fields": {k: concretize(m, x, heap) for k, x in v.fields.items()}}
+    if isinstance(v, VOpt):
+        if z3.is_true(m.eval(v.isnone, model_completion=True)):
+            return {"none": True}
+        return concretize(m, v.value, heap)
     if isinstance(v, VList):
         n = max(0, min(_ival(m, VS.len(v.t)), 64))
         from .values import unbox
